@@ -367,6 +367,34 @@ class Faults(Family):
                 ctx.claim("everything-lives-under-TRAFFIC_WEAVER_DATA", os.path.isdir(os.path.join(env.data_home, folder)))
 
 
+class Unpack(Family):
+    name = "unpack-and-flags-pass-through"
+    doc = "unpack_dataset_columns returns the two columns of exactly the verified data, from a download and from a cache hit"
+    differential = False
+
+    def configs(self, tier):
+        return [{"gz": gz} for gz in (False, True)]
+
+    def run(self, ctx, inst, gz):
+        env = make_env(ctx, gz)
+        try:
+            ds = "dsA"
+            remote = register(env, ds)
+            with env.installed() as base:
+                for which in ("download", "cache-hit"):
+                    env.restart()
+                    st, res = call(base, remote, "c", "fam", gzip=gz, unpack_dataset_columns=True)
+                    ok = st == "ok" and isinstance(res, tuple) and len(res) == 2
+                    ctx.claim("unpack:returns-two-columns", ok, {"which": which, "st": st})
+                    if ok:
+                        full = call(base, remote, "c", "fam", gzip=gz)[1]
+                        ctx.claim("unpack:columns-of-the-verified-data", is_verified(ctx, env, full, ds) and
+                                  bool(np.array_equal(np.asarray(res[0]), np.asarray(full)[:, 0])) and
+                                  bool(np.array_equal(np.asarray(res[1]), np.asarray(full)[:, 1])), {"which": which})
+        finally:
+            env.cleanup()
+
+
 class Kills(Family):
     name = "kill-at-every-step"
     doc = "one loader killed before an arbitrary (symbolic) step; then a new process loads again"
@@ -559,4 +587,4 @@ if __name__ == "__main__":
     ap = argparse.ArgumentParser()
     ap.add_argument("--tier", default="quick")
     a = ap.parse_args()
-    sys.exit(run_check("C19", "remote cache", [Faults(), Kills(), TwoDatasets(), Concurrent()], a.tier, META))
+    sys.exit(run_check("C19", "remote cache", [Faults(), Unpack(), Kills(), TwoDatasets(), Concurrent()], a.tier, META))
